@@ -83,7 +83,7 @@ theorem restart_no_exec (p : Program) {s : St} {k : Key} {n : Node}
     restarts, run from the initial state, produces the outputs of the from-scratch reference
     (`OutOK` of C01) — with C01's `core_history_sound`. -/
 theorem restart_sound {p : Program} (wf : WF p) {h : List POp} {o : List (OpOut × List Key)} {s' : St}
-    (hr : runP p h {} = .ok (o, s')) : OutOK p (POp.erase h) (o.map (·.1)) (fun _ => none) := by
+    (hr : runP p h {} = .ok (o, s')) : OutOK p (POp.erase h) (o.map (·.1)) Ref.init := by
   have e := restart_transparent p h {}
   rw [hr] at e
   simp only [outs] at e
@@ -101,9 +101,18 @@ theorem restart_sound {p : Program} (wf : WF p) {h : List POp} {o : List (OpOut 
 /-- non-vacuity: the 4-key example program of C01 with a restart before the first session, one in
     the middle of an epoch (between two rounds) and two in a row before a session: same outputs,
     same executor invocations as without (`[2,3]`, then nothing, …). -/
-example : (outs (runP exP [.restart, .op (.sess [(0, 1), (1, 5)]), .op (.round [3, 2]), .restart,
-      .op (.round [3]), .restart, .restart, .op (.sess [(0, 0), (1, 5)]), .op (.round [3])] {})).toOption =
-    some [(.sess [.fresh, .fresh], []), (.round [30, 15], [2, 3]), (.round [30], []),
-      (.sess [.updated, .unchanged], []), (.round [0], [2, 3])] := by decide
+example : (outs (runP exP [.restart, .op (.sess [.set 0 1, .set 1 5]), .op (.round [3, 2]), .restart,
+      .op (.round [3]), .restart, .restart, .op (.sess [.set 0 0, .set 1 5]), .op (.round [3])] {})).toOption =
+    some [(.sess [.fresh, .fresh], []), (.round [30, 15] [2, 3], [2, 3]), (.round [30] [], []),
+      (.sess [.updated, .unchanged], []), (.round [0] [2, 3], [2, 3])] := by decide
+
+/-- non-vacuity with an external key read in an unordered group (`exQ`): restarts around a world
+    change and a `refresh`; the pinned external value survives the restart (it is a stored node),
+    the refresh after the restart re-runs exactly the external executor. -/
+example : (outs (runP exQ [.op (.sess [.world 1 7, .set 0 1]), .op (.round [3]), .restart,
+      .op (.sess [.world 1 9]), .restart, .op (.round [3, 1]), .restart, .op (.sess [.refresh]), .restart,
+      .op (.round [3])] {})).toOption =
+    some [(.sess [.world, .fresh], []), (.round [16] [1, 2, 3], [1, 2, 3]), (.sess [.world], []),
+      (.round [16, 7] [], []), (.sess [.refreshed], [1]), (.round [20] [2, 3], [2, 3])] := by decide
 
 end Qbice.Core
